@@ -140,17 +140,14 @@ def get_username(uid):
 def set_owner_process(uid, gid, initgroups=False):
     """ set user and group of workers processes """
 
-    if gid:
-        if uid:
-            try:
-                username = get_username(uid)
-            except KeyError:
-                initgroups = False
-
-        if initgroups:
-            os.initgroups(username, gid)
-        if gid != os.getgid():
-            os.setgid(gid)
+    if initgroups:
+        try:
+            os.initgroups(get_username(uid), gid)
+        except KeyError:
+            # no passwd entry: that user is a member of no group
+            os.setgroups([gid])
+    if gid != os.getgid():
+        os.setgid(gid)
 
     if uid and uid != os.getuid():
         os.setuid(uid)
